@@ -22,6 +22,9 @@ CATALOG = dict(
                          'order_by_column': 'pickup_hour', 'group_by_columns': ['day', 'type']}],
     default_namespace='mindsdb')
 PLAN_SQL = [
+    'select * from int1.t1 t1 join mindsdb.pred m join int2.t2 t2 on t2.id = m.id',
+    'select * from int1.t1 a join int2.t2 b on a.id = b.id',
+    'select * from int1.t1 a join mindsdb.pred m on m.id = a.id join int2.t2 b on b.id = m.id where a.x = 1',
     'select * from int1.t1 where a = 1', 'select a, b from int1.t1 t join int2.t2 s on t.id = s.id where t.x > 2 limit 3',
     'select * from int1.t1 join mindsdb.pred', 'select * from int1.t1 where a in (select b from int2.t2)',
     'select t.a from int1.t1 t join mindsdb.pred p where p.x = 1', 'select * from mindsdb.pred where a = 1',
@@ -44,6 +47,11 @@ TEMPLATES = [
     'SELECT * FROM {0} t1 LEFT JOIN {1} t2 ON t1.id = t2.id JOIN {2} t3 ON t3.id = t1.id',
     'SELECT a FROM {0} WHERE x = 1 ORDER BY a LIMIT 2',
     'SELECT * FROM {0} t JOIN proj.pred p',
+    'SELECT * FROM {0} t1 JOIN mindsdb.pred m JOIN {1} t2 ON t2.id = m.id',
+    'SELECT * FROM {0} t1 JOIN {1} t2 ON t1.id = t2.id JOIN mindsdb.pred m',
+    'SELECT * FROM {0} t1 JOIN (SELECT * FROM {1}) s ON s.id = t1.id JOIN {2} t3 ON t3.id = s.id',
+    'SELECT * FROM {0} t1 JOIN proj.pred m ON m.a = t1.a JOIN {1} t2 ON t2.b = m.b WHERE t1.x = 1',
+    'SELECT t1.a FROM {0} t1 LEFT JOIN {1} t2 ON t1.id = t2.id WHERE t2.y > 1 ORDER BY t1.a LIMIT 3',
 ]
 
 
